@@ -18,7 +18,7 @@ READ_MENU = ['full', 'short0', 'short1', 'short-1', 'oserror', 'eof']
 SEND_MENU = ['ok', 'oserror']
 UNIT = 0x11
 FRAMING_HAS_TID = lambda kind: kind in ('tcp', 'udp')   # noqa: E731
-LAY = stores.Layout(('seq', 0, 64), True, False)
+LAY = stores.Layout(('seq', 0, 130), True, False)
 
 
 class Spec(object):
@@ -49,6 +49,8 @@ def req_of(name, i=0):
         return dict(kind='req', fc=16, address=8, count=2, byte_count=4, registers=[0x0B00 + i, 0x0C00 + i])
     if name == 'mask-write':
         return dict(kind='req', fc=22, address=9, and_mask=0x00FF, or_mask=0x1200)
+    if name == 'read-max':
+        return dict(kind='req', fc=3, address=1 + i, count=125)          # the longest reply there is (ADU of 259/260 bytes)
     if name == 'read-discrete':
         return dict(kind='req', fc=2, address=2, count=9)
     if name == 'read-input':
